@@ -705,6 +705,50 @@ fn fusedev_writer_case(r: &mut Rng, sock: &vkit::xport::SeqSock, trace: &mut Vec
                 // self now has capacity k: splitting beyond must fail
                 return fail("C04:fwriter:split", format!("split_at({}) on a writer of capacity {} succeeded", k + 1, k));
             }
+            if r.chance(1, 4) {
+                // split the (now buffered) head a second time, possibly inside the data it already holds:
+                // the new writer must start with the bytes behind the split point as already written
+                drop(tail);
+                let n1 = r.below(k as u64 + 1) as usize;
+                let d1 = r.bytes(n1);
+                trace.push(format!("head.write_all({})", n1));
+                guarded(|| w.write_all(&d1)).map_err(|p| ("C04:fwriter:panic:buffered".to_string(), p))?.map_err(|e| ("C04:fwriter:count:buffered".to_string(), format!("write_all of {} into a head of capacity {} failed: {:?}", n1, k, e)))?;
+                let k2 = r.below(k as u64 + 1) as usize;
+                trace.push(format!("head.split_at({})", k2));
+                let mut mid = match w.split_at(k2) {
+                    Ok(t) => t,
+                    Err(e) => return fail("C04:fwriter:split", format!("second split_at({}) of a head of capacity {} failed: {:?}", k2, k, e)),
+                };
+                let mut hd: Vec<u8> = d1[..n1.min(k2)].to_vec();
+                let mut md: Vec<u8> = d1[n1.min(k2)..].to_vec();
+                if w.bytes_written() != hd.len() || w.available_bytes() != k2 - hd.len() || mid.bytes_written() != md.len() || mid.available_bytes() != (k - k2) - md.len() {
+                    return fail(
+                        "C04:fwriter:counters:second-split",
+                        format!(
+                            "{} bytes written, split at {} of capacity {}: head written {} available {}, new writer written {} available {}; expected {} / {} and {} / {}",
+                            n1, k2, k, w.bytes_written(), w.available_bytes(), mid.bytes_written(), mid.available_bytes(), hd.len(), k2 - hd.len(), md.len(), (k - k2) - md.len()
+                        ),
+                    );
+                }
+                for _ in 0..r.range(0, 4) {
+                    let on_head = r.chance(1, 2);
+                    let (wr, model, lim) = if on_head { (&mut w, &mut hd, k2) } else { (&mut mid, &mut md, k - k2) };
+                    let n = r.below((lim - model.len()) as u64 + 1) as usize;
+                    let d = r.bytes(n);
+                    trace.push(format!("{}.write_all({})", if on_head { "head" } else { "mid" }, n));
+                    guarded(|| wr.write_all(&d)).map_err(|p| ("C04:fwriter:panic:buffered".to_string(), p))?.map_err(|e| ("C04:fwriter:count:buffered".to_string(), format!("write_all({}) failed: {:?}", n, e)))?;
+                    model.extend_from_slice(&d);
+                }
+                trace.push("commit".into());
+                let mw: Writer<'_, ()> = Writer::FuseDev(mid);
+                let c = guarded(|| w.commit(Some(&mw))).map_err(|p| ("C04:fwriter:panic:commit".to_string(), p))?;
+                expect = [hd, md].concat();
+                expect_record = !expect.is_empty();
+                return match c {
+                    Ok(n) if n == expect.len() => Ok(()),
+                    other => fail("C04:fwriter:commit", format!("commit returned {:?}, the two writers hold {} bytes", other, expect.len())),
+                };
+            }
             let mut hd: Vec<u8> = Vec::new();
             let mut td: Vec<u8> = Vec::new();
             let nops = r.range(0, 12);
